@@ -26,15 +26,19 @@ pub struct LaneSpec {
   pub quick_runs: u64,
   pub thorough_runs: u64,
   pub runner: Box<dyn Fn(&LaneCfg, &Known) -> LaneResult + Send + Sync>,
+  /// worker-process entry: scan one part, return the JSON result
+  pub scan_json: Box<dyn Fn(&LaneCfg, &Known) -> String + Send + Sync>,
 }
 
 pub fn lane<F: Family>(name: &str, fam: F, quick_runs: u64, thorough_runs: u64) -> LaneSpec {
   let fam = Arc::new(fam);
+  let fam2 = fam.clone();
   LaneSpec {
     name: name.to_string(),
     quick_runs,
     thorough_runs,
     runner: Box::new(move |cfg, known| run_lane(fam.clone(), cfg, known)),
+    scan_json: Box::new(move |cfg, known| super::batch::scan_json(fam2.clone(), cfg, known)),
   }
 }
 
@@ -44,6 +48,11 @@ pub struct CheckSpec {
   pub lanes: Vec<LaneSpec>,
   pub assumptions: Vec<String>,
   pub notes: Vec<String>,
+}
+
+/// Batch seed of lane `li` of a check (shared by the parent and its worker processes).
+pub fn lane_seed(seed: u64, li: usize) -> u64 {
+  seed ^ ((li as u64 + 1).wrapping_mul(0xA24B_AED4_963E_E407))
 }
 
 pub fn run_check(spec: CheckSpec, opts: &Opts) -> i32 {
@@ -59,11 +68,14 @@ pub fn run_check(spec: CheckSpec, opts: &Opts) -> i32 {
     let cfg = LaneCfg {
       lane: l.name.clone(),
       property: spec.property.clone(),
-      batch_seed: opts.seed ^ ((li as u64 + 1).wrapping_mul(0xA24B_AED4_963E_E407)),
+      batch_seed: lane_seed(opts.seed, li),
       runs,
       jobs: opts.jobs,
       stop_on_first: true,
       survey: opts.survey,
+      part: None,
+      lane_index: li,
+      tier_quick: opts.tier == Tier::Quick,
       replay_dir: format!("{}/replays", opts.verif_dir),
       shrink_budget: 1500,
     };
